@@ -1,5 +1,6 @@
 import Emboss.Properties.C12
 open Emboss.Scope
+#print axioms C12_visible_nodup
 #print axioms C12_head_unique
 #print axioms C12_head_missing
 #print axioms C12_head_ambiguous
@@ -8,10 +9,17 @@ open Emboss.Scope
 #print axioms C12_resolve_missing
 #print axioms C12_resolve_ambiguous
 #print axioms C12_accepted_all_resolved
+#print axioms C12_all_resolved_accepted
+#print axioms C12_accepted_iff_all_resolved
+#print axioms C12_resolve_symbols_iff
 #print axioms C12_duplicates_rejected
 #print axioms C12_duplicates_rejected_pair
 #print axioms C12_canonical_roundtrip
 #print axioms C12_abbreviation_private
-#print axioms C12_member_lookup_partial
+#print axioms C12_member_lookup
+#print axioms C12_member_lookup_rejects
+#print axioms C12_member_lookup_fuel
+#print axioms C12_member_lookup_errors
+#print axioms C12_member_lookup_names
 #print axioms C12_abbreviation_tail_counterexample
-#print axioms C12_member_of_parameter_counterexample
+#print axioms C12_self_renaming_counterexample
